@@ -158,9 +158,14 @@ func (c Chain) String() string {
 	return fmt.Sprintf("rows=%d :: %s", c.N, strings.Join(calls, "."))
 }
 
-// apply builds the chain on a fresh handle. When inline is true the condition
+// apply builds the chain on a handle. When inline is true the condition
 // is left out (the finisher carries it).
 func (c Chain) apply(db *gorm.DB, inline bool) *gorm.DB {
+	return c.applyOps(c.applyHead(db, inline))
+}
+
+// applyHead applies condition and ordering only.
+func (c Chain) applyHead(db *gorm.DB, inline bool) *gorm.DB {
 	if c.Cond != 0 && !inline {
 		cd := conds[c.Cond]
 		db = cd.Where(db, cd.Arg(c.N))
@@ -168,6 +173,11 @@ func (c Chain) apply(db *gorm.DB, inline bool) *gorm.DB {
 	if c.Order != 0 {
 		db = orders[c.Order].Apply(db)
 	}
+	return db
+}
+
+// applyOps applies the Limit/Offset calls.
+func (c Chain) applyOps(db *gorm.DB) *gorm.DB {
 	for _, o := range c.Ops {
 		if o.K == "limit" {
 			db = db.Limit(o.V)
@@ -176,6 +186,12 @@ func (c Chain) apply(db *gorm.DB, inline bool) *gorm.DB {
 		}
 	}
 	return db
+}
+
+// withoutOps is the chain before any Limit/Offset call.
+func (c Chain) withoutOps() Chain {
+	c.Ops = nil
+	return c
 }
 
 func (c Chain) inlineArgs() []interface{} {
